@@ -125,7 +125,8 @@ theorem C19_emit_is_printer (π : Params P S) (h : List (Op P S)) (t : Nat) (T :
     * the emitted module declares exactly the constants `constsFrom … F`: the constant of definition `i` is named after
       definition `i` (`C14_names`), and its value `docs[i]` is the JSON of `runtimeDefs R R[i]`;
     * for an operation `X = R[i]` of the ROOT file whose transitive spreads are all defined among the root's fragments
-      and the reference import set, with pairwise distinct fragment names in `R`, and when no OTHER document is held
+      and the reference import set, with pairwise distinct fragment names in `R`, with every held file as the parser
+      produces it (`ReadDoc.Resolved rootFile.defs`, `ProjectOk`), and when no OTHER document is held
       under the root's normalised name (`RootOKp … (norm root) rootFile`; `C19_rootOK_of_normalised`: automatic when
       the root name is normalised): `docs[i]` reads back, with the
       independent graphql-js reader, as `[X] ++` the reference closure of X's spreads over the reference document, each
